@@ -90,7 +90,7 @@ def run(env: Env) -> Outcome:
     c01x.install_micro_observers()
     _replay_extension(env, out)
     out.rule = ("direct: random (state,tick) pairs; live: random scripted workflows (2-5 steps, num_workers 1-4, retries, collect, wait, "
-                "handlers, externals) under random gate schedules, plus a fan-in family whose collecting step calls collect_events 2-4 times on one buffer per invocation; non-trivial = more than 2 ticks processed; distinct by (spec, schedule); "
+                "handlers, externals) under random gate schedules, plus a fan-in family whose collecting step calls collect_events 2-4 times on one buffer per invocation; plus a twin family (one event object sent 2-3 times to a step with 2-4 workers, all deliveries gated in flight, 1-4 further events queued, 0-2 externals); non-trivial = more than 2 ticks processed; distinct by (spec, schedule); "
                 "micro: on every live run the table of worker coroutines/tasks before the first and after every command of every tick and of the start-up rewind; "
                 "corrupt_rewind: generated states with damaged in_progress tables (duplicates / out-of-range ids / more rows than workers), distinct by state; "
                 "admit: num_workers 1-5 x id tables of length 0..num_workers+2 (45% reachable, 30% duplicates and out-of-range, 25% duplicates in range), distinct by (num_workers, table)")
@@ -110,6 +110,12 @@ def run(env: Env) -> Outcome:
     t2 = suite.live_runs(env, out, env.budget(250, 5000), [monitors.mon_c01, c01x.mon_micro], gen_kwargs={"family": "fanin", "raise_incomplete": True},
                          check_runner=False)
     c01x.micro_corr(out, t2)
+    # one event OBJECT delivered 2-3 times to a step with 2-4 workers, all deliveries in flight, more events queued / arriving
+    # later, gates opened in every order: the completion of one delivery frees exactly its own slot
+    twin = [{"spec": specgen.gen_twin_spec(mrng), "seed": mrng.randrange(1 << 30)} for _ in range(env.budget(120, 2400))]
+    out.count("live:twin_specs", len(twin))
+    t3 = suite.live_runs(env, out, 0, [monitors.mon_c01, c01x.mon_micro], extra_specs=twin, check_runner=False)
+    c01x.micro_corr(out, t3)
     # states no run leaves behind (duplicated / out-of-range worker ids, more rows than workers): the rewind repairs them
     c01x.corrupt_rewind(env, out, env.budget(400, 8000))
     # the admission on arbitrary id tables
